@@ -7,7 +7,7 @@ through the accessor whitelist. (2) Every `printer-uri` attribute constructed an
 its value from `canonicalize_uri(..)` on every path. One reviewed exception: the builder-failure fallback."""
 from ..facts import calls, site, unwrap, walk
 from ..symx import TooManyPaths, closure_paths, cshow, paths_of, tshow
-from ..terms import display_norm, flatten_fmt, is_call, mentions, subterms
+from ..terms import display_norm, flatten_fmt, is_call, mentions, opt_polarity, subterms
 
 FN = "ipp::util::canonicalize_uri"
 PRINTER_URI = "ipp::attribute::IppAttribute::PRINTER_URI"
@@ -127,7 +127,7 @@ def check(run, views, tier):
                 port_cond = None
                 for c in p.conds:
                     if c[0] == "match" and is_call(c[1], "http::uri::Authority::port_u16", "http::uri::Authority::port"):
-                        port_cond = (c[3] is True) or (isinstance(c[3], int) and not isinstance(c[3], bool) and "Some" in str(c[2]))
+                        port_cond = opt_polarity(c)
                     if c[0] == "if" and is_call(c[1], "std::option::Option::<T>::is_some") and is_call(c[1][2][0], "http::uri::Authority::port_u16", "http::uri::Authority::port"):
                         port_cond = c[2]
                 run.ob("R-TAINT-URI", "authority = host() or host():port_u16() [%s]" % pc, ok_host_only or ok_host_port,
